@@ -36,3 +36,66 @@ pub fn run() -> i32 {
     println!("200 create+finish in {:?}", t.elapsed());
     0
 }
+
+/// Exploration: one instance reported to two browses at once (base type and a subtype of it).
+pub fn run_two_browses(variant: &str) -> i32 {
+    let mut w = World::new(T0);
+    let a_if = vec![SimIf::new("eth0", 2, "192.168.1.10".parse().unwrap(), 24)];
+    let b_if = vec![SimIf::new("eth0", 2, "192.168.1.20".parse().unwrap(), 24)];
+    let mut a = SimDaemon::new("A", a_if, T0, 1).unwrap();
+    let mut b = SimDaemon::new("B", b_if, T0, 2).unwrap();
+    let _ = a.d.set_ip_check_interval(1_000_000);
+    let _ = b.d.set_ip_check_interval(1_000_000);
+    let info = ServiceInfo::new("_printer._sub._http._tcp.local.", "web", "hosta.local.", "192.168.1.10", 8080, &[("k", "v")][..]).unwrap();
+    a.register(info).unwrap();
+    b.browse("_http._tcp.local.").unwrap();
+    b.browse("_printer._sub._http._tcp.local.").unwrap();
+    let ia = w.add(a);
+    let ib = w.add(b);
+    w.links.push(Link { ends: vec![(ia, 2), (ib, 2)] });
+    w.advance(10_000);
+    match variant {
+        "goodbye" => {
+            w.daemons[ia].unregister("web._http._tcp.local.").unwrap();
+            w.advance(3_000);
+        }
+        "expire" => {
+            w.links.clear();
+            w.advance(5_000_000);
+        }
+        "stop-sub-then-goodbye" => {
+            w.daemons[ib].stop_browse("_printer._sub._http._tcp.local.").unwrap();
+            w.advance(2_000);
+            w.daemons[ia].unregister("web._http._tcp.local.").unwrap();
+            w.advance(3_000);
+        }
+        "stop-base-then-goodbye" => {
+            w.daemons[ib].stop_browse("_http._tcp.local.").unwrap();
+            w.advance(2_000);
+            w.daemons[ia].unregister("web._http._tcp.local.").unwrap();
+            w.advance(3_000);
+        }
+        "stop-sub-then-expire" => {
+            w.daemons[ib].stop_browse("_printer._sub._http._tcp.local.").unwrap();
+            w.advance(2_000);
+            w.links.clear();
+            w.advance(5_000_000);
+        }
+        "stop-base-then-expire" => {
+            w.daemons[ib].stop_browse("_http._tcp.local.").unwrap();
+            w.advance(2_000);
+            w.links.clear();
+            w.advance(5_000_000);
+        }
+        _ => {}
+    }
+    let d = &w.daemons[ib];
+    println!("===== daemon {} ({} steps) variant {variant}", d.label, d.steps);
+    for l in render_log(&d.log, true, 4000).lines() {
+        if l.contains("EVENT") || l.contains("API") || l.contains("api") {
+            println!("{}", l.chars().take(220).collect::<String>());
+        }
+    }
+    w.finish();
+    0
+}
